@@ -6,45 +6,37 @@ import (
 	"testing/synctest"
 	"time"
 	"fmt"
-	"os"
 
 	"verif/harness/lib/clus"
-	"github.com/ipfs/ipfs-cluster/api"
-	peer "github.com/libp2p/go-libp2p-core/peer"
 )
 
-func TestRaft3(t *testing.T) {
+func TestCRDT2(t *testing.T) {
 	for i := 0; i < 3; i++ {
 	st := time.Now()
-	synctest.Test(t, func(t *testing.T) {
+	clus.Bubble(t, func(t *testing.T) {
 		ctx := context.Background()
-		_, hosts := clus.NewMocknet(ctx, 0, 3)
-		var ids []peer.ID
-		for _, h := range hosts { ids = append(ids, h.ID()) }
-		var peers []*clus.RaftPeer
+		mn, hosts := clus.NewMocknetUnconnected(ctx, 0, 2)
+		var peers []*clus.CRDTPeer
 		for j, h := range hosts {
-			d, _ := os.MkdirTemp("/var/tmp", "raft")
-			defer os.RemoveAll(d)
-			p, err := clus.NewRaftPeer(h, d, ids, false, nil)
+			p, err := clus.NewCRDTPeer(ctx, h, clus.NewFaultStore(), false, nil)
 			if err != nil { t.Fatal(j, err) }
 			peers = append(peers, p)
 		}
+		mn.ConnectAllButSelf()
 		t0 := time.Now()
 		for _, p := range peers { <-p.Cons.Ready(ctx) }
 		fmt.Println("ready after fake", time.Since(t0))
-		l, _ := peers[0].Cons.Leader(ctx)
-		fmt.Println("leader", l)
-		pin := api.PinCid(clus.Cid("a")); pin.Name="x"
-		err := peers[1].Cons.LogPin(ctx, pin)
-		fmt.Println("logpin", err)
+		va := clus.PinAlphabet()
+		fmt.Println("logpin", peers[0].Cons.LogPin(ctx, va[1].Make(clus.Cid("a"))), peers[1].Cons.LogPin(ctx, va[3].Make(clus.Cid("b"))))
 		synctest.Wait()
 		time.Sleep(2*time.Second)
+		synctest.Wait()
 		for _, p := range peers {
 			s, _ := p.Cons.State(ctx)
 			l, _ := s.List(ctx)
 			fmt.Println(len(l), len(p.Rec.Snapshot()))
 		}
-		for _, p := range peers { p.Cons.Shutdown(ctx); p.Host.Close() }
+		for _, p := range peers { p.Stop(); p.Host.Close() }
 	})
 	fmt.Println("wall", time.Since(st))
 	}
